@@ -728,6 +728,140 @@ extern "C" int pthread_mutex_unlock( pthread_mutex_t* m)
    return simUnlock( m, true);
 }
 
+// ----- timed mutex lock: as lock (a waiter that can never get the mutex is a
+// deadlock, as it would be after the time limit in real life)
+
+extern "C" int pthread_mutex_timedlock( pthread_mutex_t* m, const struct timespec*)
+{
+   return pthread_mutex_lock( m);
+}
+
+extern "C" int pthread_mutex_clocklock( pthread_mutex_t* m, clockid_t, const struct timespec*)
+{
+   return pthread_mutex_lock( m);
+}
+
+// ----- reader/writer locks (std::shared_mutex)
+
+extern "C" {
+int __interceptor_pthread_rwlock_rdlock( pthread_rwlock_t*) __attribute__(( weak));
+int __interceptor_pthread_rwlock_wrlock( pthread_rwlock_t*) __attribute__(( weak));
+int __interceptor_pthread_rwlock_tryrdlock( pthread_rwlock_t*) __attribute__(( weak));
+int __interceptor_pthread_rwlock_trywrlock( pthread_rwlock_t*) __attribute__(( weak));
+int __interceptor_pthread_rwlock_unlock( pthread_rwlock_t*) __attribute__(( weak));
+}
+
+namespace {
+
+constexpr int  kMaxRwLocks = 64;
+struct RwRec { void* l = nullptr; int writer = -1; int readers = 0; }  g_rw[ kMaxRwLocks];
+
+RwRec* findRw( void* l, bool create)
+{
+   RwRec*  free_slot = nullptr;
+   for (auto & r : g_rw)
+   {
+      if (r.l == l) return &r;
+      if (r.l == nullptr && free_slot == nullptr) free_slot = &r;
+   }
+   if (create && free_slot != nullptr)
+   {
+      free_slot->l = l;
+      free_slot->writer = -1;
+      free_slot->readers = 0;
+   }
+   return create ? free_slot : nullptr;
+}
+
+/// exclusive = writer lock; try_only: do not wait. Returns 0 or EBUSY.
+int simRwAcquire( pthread_rwlock_t* l, bool exclusive, bool try_only)
+{
+   const int  me = tl_id;
+   point( pkLock);
+   for (;;)
+   {
+      RwRec*  r = findRw( l, true);
+      if (r == nullptr)
+         fatal( "INFRA", "reader/writer lock table full");
+      const bool  free_for_me = exclusive ? (r->writer < 0 && r->readers == 0) : (r->writer < 0);
+      if (free_for_me)
+      {
+         if (exclusive) r->writer = me; else ++r->readers;
+         return 0;
+      }
+      if (r->writer == me)
+         fatal( "DEADLOCK", "a thread locks a reader/writer lock that it already holds exclusively");
+      if (try_only)
+         return EBUSY;
+      ++g.st.blocked_lock;
+      g.t[ me].state = stBlockedMutex;
+      g.t[ me].wait_mutex = l;
+      blockCurrent( me, pkBlock);
+   }
+}
+
+} // namespace
+
+extern "C" int pthread_rwlock_rdlock( pthread_rwlock_t* l)
+{
+   static decltype( &__interceptor_pthread_rwlock_rdlock)  real = nullptr;
+   if (real == nullptr) real = realFn( &__interceptor_pthread_rwlock_rdlock, "pthread_rwlock_rdlock");
+   if (tl_id < 0 || !g.active.load()) return real( l);
+   simRwAcquire( l, false, false);
+   return real( l);
+}
+
+extern "C" int pthread_rwlock_wrlock( pthread_rwlock_t* l)
+{
+   static decltype( &__interceptor_pthread_rwlock_wrlock)  real = nullptr;
+   if (real == nullptr) real = realFn( &__interceptor_pthread_rwlock_wrlock, "pthread_rwlock_wrlock");
+   if (tl_id < 0 || !g.active.load()) return real( l);
+   simRwAcquire( l, true, false);
+   return real( l);
+}
+
+extern "C" int pthread_rwlock_tryrdlock( pthread_rwlock_t* l)
+{
+   static decltype( &__interceptor_pthread_rwlock_tryrdlock)  real = nullptr;
+   if (real == nullptr) real = realFn( &__interceptor_pthread_rwlock_tryrdlock, "pthread_rwlock_tryrdlock");
+   if (tl_id < 0 || !g.active.load()) return real( l);
+   if (simRwAcquire( l, false, true) != 0) return EBUSY;
+   return real( l);
+}
+
+extern "C" int pthread_rwlock_trywrlock( pthread_rwlock_t* l)
+{
+   static decltype( &__interceptor_pthread_rwlock_trywrlock)  real = nullptr;
+   if (real == nullptr) real = realFn( &__interceptor_pthread_rwlock_trywrlock, "pthread_rwlock_trywrlock");
+   if (tl_id < 0 || !g.active.load()) return real( l);
+   if (simRwAcquire( l, true, true) != 0) return EBUSY;
+   return real( l);
+}
+
+extern "C" int pthread_rwlock_unlock( pthread_rwlock_t* l)
+{
+   static decltype( &__interceptor_pthread_rwlock_unlock)  real = nullptr;
+   if (real == nullptr) real = realFn( &__interceptor_pthread_rwlock_unlock, "pthread_rwlock_unlock");
+   const int  me = tl_id;
+   if (me < 0 || !g.active.load()) return real( l);
+   const int  rc = real( l);
+   if (RwRec* r = findRw( l, false))
+   {
+      if (r->writer == me) r->writer = -1;
+      else if (r->readers > 0) --r->readers;
+      if (r->writer < 0 && r->readers == 0) r->l = nullptr;
+      for (int k = 0; k < g.nthreads; ++k)
+         if (g.t[ k].state == stBlockedMutex && g.t[ k].wait_mutex == l)
+         {
+            g.t[ k].state = stRunnable;
+            g.t[ k].wait_mutex = nullptr;
+            g.prio_dirty = true;
+         }
+   }
+   point( pkUnlock);
+   return rc;
+}
+
 // ----- one-time initialisation: pthread_once (std::call_once) and the guards
 // of function-local statics. The real implementations block in the kernel
 // while another thread runs the initialiser; under this scheduler that thread
